@@ -81,3 +81,48 @@ def generate(repo, emit, src, func_body):
     if fb and re.search(r'return\s+vfprintf\(f->file,\s*fmt,\s*va\);', fb):
         ok = 'Definition file_fmt_returns_count : bool := true.   (* source: return vfprintf(f->file, fmt, va); *)'
     emit('file_fmt_returns_count', ok)
+
+
+def _show_strings(emit, src, func_body, file, fn, prefix, item_re, sep_re):
+    """opener/closer literals and loop shape of a container Show function"""
+    s = src(file)
+    b = func_body(s, r'static\s+int\s+%s\s*\([^)]*\)\s*\{' % fn)
+    names = (prefix + '_show_open', prefix + '_show_close', prefix + '_show_shape_ok')
+    if not b:
+        for n in names: emit(n, None)
+        return
+    flat = re.sub(r'\s+', ' ', b)
+    mo = re.search(r'pos = print_to\(output, pos, "((?:[^"\\]|\\.)*)", self\);', flat)
+    mc = re.search(r'return print_to\(output, pos, "((?:[^"\\]|\\.)*)"\);', flat)
+    emit(names[0], natlist(names[0], c_unescape(mo.group(1)), 'source: %s opens with "%s"' % (fn, mo.group(1))) if mo else None)
+    emit(names[1], natlist(names[1], c_unescape(mc.group(1)), 'source: %s closes with "%s"' % (fn, mc.group(1))) if mc else None)
+    ok = re.search(item_re, flat) and re.search(sep_re, flat)
+    emit(names[2], ('Definition %s : bool := true.   (* one print_to per element, ", " between elements *)' % names[2]) if ok else None)
+
+
+def generate_show(repo, emit, src, func_body):
+    SEP = r'\{ pos = print_to\(output, pos, ", "\); \}'
+    _show_strings(emit, src, func_body, 'src/Array.c', 'Array_Show', 'array',
+                  r'pos = print_to\(output, pos, "%\$", Array_Item\(a, i\)\);', r'if \(i < a->nitems-1\) ' + SEP)
+    _show_strings(emit, src, func_body, 'src/List.c', 'List_Show', 'list',
+                  r'pos = print_to\(output, pos, "%\$", item\);', r'item = \*List_Next\(l, item\); if \(item\) ' + SEP)
+    _show_strings(emit, src, func_body, 'src/Tuple.c', 'Tuple_Show', 'tuple',
+                  r'pos = print_to\(output, pos, "%\$", t->items\[i\]\);', r'if \(t->items\[i\+1\] isnt Terminal\) ' + SEP)
+    _show_strings(emit, src, func_body, 'src/Table.c', 'Table_Show', 'table',
+                  r'pos = print_to\(output, pos, "%\$:%\$", Table_Key\(t, i\), Table_Val\(t, i\)\);', r'if \(j < Table_Len\(t\)-1\) ' + SEP)
+    _show_strings(emit, src, func_body, 'src/Tree.c', 'Tree_Show', 'tree',
+                  r'pos = print_to\(output, pos, "%\$:%\$", Tree_Key\(m, node\), Tree_Val\(m, node\)\);', r'if \(curr isnt Terminal\) ' + SEP)
+    # Int_Show / Float_Show: return print_to(output, pos, "%li", self);
+    n = src('src/Num.c')
+    for fn, name in (('Int_Show', 'int_show_fmt'), ('Float_Show', 'float_show_fmt')):
+        b = func_body(n, r'int\s+%s\s*\([^)]*\)\s*\{' % fn)
+        m = re.search(r'return\s+print_to\(output,\s*pos,\s*"((?:[^"\\]|\\.)*)",\s*self\);', b or '')
+        emit(name, natlist(name, c_unescape(m.group(1)), 'source: %s prints "%s"' % (fn, m.group(1))) if m else None)
+
+
+_generate_scanner = generate
+
+
+def generate(repo, emit, src, func_body):
+    _generate_scanner(repo, emit, src, func_body)
+    generate_show(repo, emit, src, func_body)
